@@ -199,10 +199,10 @@ PROPS["C13"] = dict(
 PROPS["C14"] = dict(
     level="other", units=["geom"], kani=["k_shim_transform"], lemmas=["lattice-area"],
     explanation="Unbounded (Verus, all cell parameters): the real to_cartesian/to_cartesian_point/center map (x,y) to x*A + y*B with A=(a,0), B=(b cos t, b sin t); to_cartesian_isometry and "
-                "to_cartesian_translate keep the linear part and map the translation to C(t) resp. C(t) + n*A + m*B; area = A x B (z3: equals a b sin t >= 0). "
+                "to_cartesian_translate keep the linear part and map the translation to C(t) resp. C(t) + n*A + m*B; get_corners (R16) returns the Cartesian images of (+-1/2, +-1/2); area = A x B (z3: equals a b sin t >= 0). "
                 "The real periodic_images (iproduct!.filter.map desugared by R16) is proved sound and complete for every shell count: each element is the placement translated by some n*A+m*B with |n|,|m| <= k (the untranslated one only when asked), orientation unchanged, and every such offset occurs.",
     assumptions=_GEOM_ASSUMPTIONS,
-    undecided=["'each once': multiplicity of an offset in periodic_images is not stated (soundness + completeness are; a bounded Kani count did not finish)", "get_corners (map/collect plumbing)"],
+    undecided=["'each once': multiplicity of an offset in periodic_images is not stated (soundness + completeness are; a bounded Kani count did not finish)"],
 )
 PROPS["C15"] = dict(
     level="other", units=["geom"], kani=["k_wrap_range", "k_shim_transform"], lemmas=[],
@@ -239,7 +239,7 @@ _STATE_ASSUMPTIONS = _GEOM_ASSUMPTIONS + [
     "contract on Shape implementors also includes intersects() == overlaps-relation and transform() == moved(): for the real shapes these are proved in unit pairs (component level and shape level) except transform()'s map/collect",
 ]
 PROPS["C02"]["units"] = ["pairs", "geom", "state"]
-PROPS["C02"]["lemmas"] = ["lattice-area", "trimer-area-pre"]
+PROPS["C02"]["lemmas"] = ["lattice-area", "radial-norm", "trimer-area-pre"]
 PROPS["C02"]["explanation"] = (
     "Verus proves on the real PackedState::score that the reported value is None when the overlap test fires and otherwise exactly shape.area() * copies / cell.area(); "
     "Cell2::area = A x B = a b sin t (z3: non-negative for the angle range); Atom2::area = pi r^2; MolecularShape2::overlap_area = circular-segment formula; circle_overlap = lens of two discs; "
@@ -276,7 +276,7 @@ PROPS["C08"] = dict(
                 "and the clamp on the real pointers for all bit patterns, which also gives chaining: bounds re-derived from in-range values are sub-ranges.",
     assumptions=_OPT_ASSUMPTIONS + _GEOM_ASSUMPTIONS[2:],
     undecided=["'every supported group with any shape starts from a valid state': Verus proves on the real PackedState::initialise / from_family / from_wyckoff that the initial parameters are in range (ratio 1, angle pi/2 or pi/3, positions -1/2+1/(2N), length 4RN >= 0.01 when R >= 0.0025/N); that the initial copies do not overlap (defined score) is NOT proved",
-               "PotentialState::initialise (same code with 2RN) is not extracted separately"],
+               ],
 )
 PROPS["C10"] = dict(
     level="other", units=["state", "opt"], kani=["k_tables_label_%s" % g for g in _GROUPS] + ["k_clone_cell", "k_clone_site"], lemmas=[],
@@ -284,7 +284,8 @@ PROPS["C10"] = dict(
                 "the order on states is the order on their scores and cmp is total when both have scores (Verus, real eq/partial_cmp/cmp); cloning a cell or site yields fresh cells (Kani, all bit patterns), "
                 "and the optimiser's random stream is a function of the given seed only (Verus: seed clause, build.seed), so a replica's result does not depend on the others and max over a longer prefix cannot be lower.",
     assumptions=_STATE_ASSUMPTIONS + _OPT_ASSUMPTIONS[:2],
-    undecided=["main.rs (rayon `max()`, logging, file writing) is a parallel adapter chain in a binary crate behind #[paw::main]: not under contract — that the CLI really takes the maximum and writes that state is assumed",
+    undecided=["PackedState::from_group is proved to record the group's family and to hold one site with one operation per table string (WyckoffSite::new's map/collect of Results is a shim: on success one operation per string)",
+               "main.rs (rayon `max()`, logging, file writing) is a parallel adapter chain in a binary crate behind #[paw::main]: not under contract — that the CLI really takes the maximum and writes that state is assumed",
                "derive(Clone) of PackedState/PotentialState composes the field clones (derive-generated code not verified)"],
 )
 
